@@ -297,27 +297,6 @@ pub fn negatives(ctx: &mut Ctx, s: &Step, t: &mut Tape) -> Result<(), Violation>
 
 const SAN_ALPHABET: &[char] = &['K', 'Q', 'R', 'B', 'N', 'a', 'b', 'c', 'd', 'e', 'f', 'g', 'h', '1', '2', '3', '4', '5', '6', '7', '8', 'x', 'O', '-', '+', '#', '=', ' ', 'e', '.', 'p', '0', 'é', '中', '\u{1F600}', '!', '?'];
 
-/// Positions asked one right after the other (each a start position of its own): parsing is a pure
-/// function of (position, text), so what was asked before must not matter. On failure the case
-/// names the whole sequence.
-pub fn check_in_turn(ctx: &mut Ctx, seq: &[Pos]) -> Result<(), Violation> {
-    let fens: Vec<String> = seq.iter().map(|p| p.fen()).collect();
-    let counts = std::collections::BTreeMap::new();
-    for p in seq {
-        let b = match <chess::Board as std::str::FromStr>::from_str(&p.fen()) {
-            Ok(b) => b,
-            Err(_) => continue,
-        };
-        let legal = p.legal_moves();
-        let s = Step { start: p, moves: &[], pos: p, legal: &legal, board: &b, prev: None, counts: &counts };
-        check_step(ctx, &s).map_err(|mut v| {
-            v.case = json!({"asked_in_turn": fens, "failing": v.case});
-            v
-        })?;
-    }
-    Ok(())
-}
-
 fn mutate(text: &str, t: &mut Tape) -> String {
     let mut cs: Vec<char> = text.chars().collect();
     for _ in 0..(1 + t.below(2)) {
@@ -385,18 +364,7 @@ pub fn run(cfg: &Cfg) -> i32 {
                 check_step(ctx, s)?;
                 // one position in eight: the positions with the same men on the same squares (other
                 // side to move, rights dropped, en-passant state dropped) are asked in turn with it
-                if fp(&(s.pos, "siblings")) % 8 == 0 {
-                    let sibs = gen::placement_siblings(s.pos);
-                    if !sibs.is_empty() {
-                        let mut seq: Vec<Pos> = vec![];
-                        for q in sibs {
-                            seq.push(q);
-                            seq.push(s.pos.clone());
-                        }
-                        ctx.class("position:asked-in-turn-with-its-placement-siblings");
-                        check_in_turn(ctx, &seq)?;
-                    }
-                }
+                common::with_siblings(ctx, s, 8, &check_step)?;
                 for g in &c.garbage {
                     ctx.class("text:generated-garbage");
                     check_any_text(ctx, s, g)?;
@@ -434,7 +402,7 @@ pub fn run(cfg: &Cfg) -> i32 {
 pub fn replay(ctx: &mut Ctx, case: &Value) -> Result<(), Violation> {
     if let Some(list) = case.get("asked_in_turn").and_then(|x| x.as_array()) {
         let seq: Vec<Pos> = list.iter().filter_map(|f| f.as_str().and_then(|t| Pos::from_fen(t).ok())).collect();
-        return check_in_turn(ctx, &seq);
+        return common::in_turn(ctx, &seq, &check_step);
     }
     let text = case.get("text").and_then(|t| t.as_str()).map(|s| s.to_string());
     let (_, moves) = gen::parse_hist_case(case).map_err(|e| ctx.violation("INFRA", e, Value::Null))?;
